@@ -1960,6 +1960,31 @@ func setterPairs(r *Rand, n int, emit func(h *Hist), check string) {
 	vals := [][]string{{"file", "http:", "sc", "wss", "1x", ""}, {"u", "", "é:@"}, {"p", "", "/:"}, {"h2:99", "", "[::1]", "h3/x", "1.2.3", "a b", "h:99999", "h:0"},
 		{"h2", "", "x:8", "0x7f.1", "xn--a", "localhost"}, {"80", "", "8080x", "65536", "443", "0", "a"}, {"/x/../y", "", "a b", "//x", "C|/"}, {"q=1", "", "?a b'", "#"}, {"f", "", "#g h", "`"}}
 	reassignAfterProtocolChange(emit, check, starts)
+	// every punctuation character (and the characters next to the set boundaries) as the FIRST and as the LAST character of
+	// a setter's value: setters do not strip their argument, so the end of a serialization can hold what parsing an input
+	// never leaves there — the only way to see an off-by-one in a strip / trim predicate (S64: `!`, the code point equal to
+	// the exclusive bound of the C0-or-space set)
+	edge := []string{"!", "\"", "#", "$", "%", "&", "'", "(", ")", "*", "+", ",", "-", ".", "/", ":", ";", "<", "=", ">", "?", "@", "[", "\\", "]", "^", "_", "`", "{", "|", "}", "~",
+		" ", "\x1f", "\x7f", "\u0080", "\u00a0", "0", "A"}
+	for ei, e := range edge {
+		for _, st := range []string{"https://example.com/docs?lang=en#f", "https://example.com/docs?lang=en", "https://example.com/docs", "sc://host:8080/x", "sc:opaque"} {
+			for _, setter := range []int{1, 2, 4, 6, 7, 8} {
+				if (ei+setter)%2 == int(r.s%2) && n < 50000 {
+					continue
+				}
+				for _, v := range []string{"x" + e, e + "x", e} {
+					h := &Hist{}
+					if check != "" {
+						h.Check = map[string]bool{check: true}
+					}
+					if k := h.ParsePkg(st); k >= 0 {
+						h.Set(k, setter, v)
+					}
+					emit(h)
+				}
+			}
+		}
+	}
 	cnt := 0
 	for _, st := range starts {
 		for s1 := 0; s1 < 9; s1++ {
